@@ -830,8 +830,11 @@ func (x *Exec) callByContract(fi *FuncInfo, fc *FuncContract, call *ast.CallExpr
 	if (fc.Flags["readonly"] || fc.Flags["pure"]) && !x.P.IsReadonly(fi) {
 		unsupported("contract of %s claims readonly/pure but the body may write through its receiver or pointer parameters", fi.Key)
 	}
+	if fc.Flags["recvreadonly"] && !x.P.IsRecvReadonly(fi) {
+		unsupported("contract of %s claims recvreadonly but the body may write through its receiver", fi.Key)
+	}
 	if rv := sig.Recv(); rv != nil {
-		if _, isPtr := rv.Type().(*types.Pointer); isPtr && !fc.Flags["readonly"] && !fc.Flags["pure"] {
+		if _, isPtr := rv.Type().(*types.Pointer); isPtr && !fc.Flags["readonly"] && !fc.Flags["pure"] && !fc.Flags["recvreadonly"] {
 			nv := x.fresh(rv.Name(), rv.Type())
 			post.locals[rv.Name()] = nv
 			if recvExpr != nil {
